@@ -334,6 +334,15 @@ class NFEval:
 
     def exp_atom(self, x):
         """exp(x) as an atom whose argument is remembered (for differentiation)."""
+        # exp(c * X) = exp(X) ** c with c the rational content (and sign) of the argument, so that exp(X),
+        # exp(-2 X) and exp(X / 2) share one atom
+        m = self.as_mono(x)
+        c = m.coef
+        if c != 1 and c != 0 and m.f:
+            x = Mono(Fraction(1), m.f)
+            key = 'numpy.exp(%s)' % x.key()
+            self.funcs[key] = ('exp', x)
+            return Mono(Fraction(1), {key: self.S.F(c)})
         key = 'numpy.exp(%s)' % x.key()
         self.funcs[key] = ('exp', x)
         return self.atom(key)
